@@ -1,3 +1,7 @@
+import FrappyProofs.Lemmas.Activate
+import FrappyProofs.Lemmas.ActivateLoss
+import FrappyProofs.Lemmas.ActivateSnap
 import FrappyProofs.Lemmas.Logging
 import FrappyProofs.Lemmas.Rotate
+import FrappyProofs.Props.C08
 import FrappyProofs.Props.C20
